@@ -3,6 +3,7 @@ import UtilModel.Routine.ProofsC05
 import UtilModel.Routine.ProofsC14
 import UtilModel.Routine.ProofsK4
 import UtilModel.Routine.ProofsObs
+import UtilModel.Routine.ProofsRT
 import UtilModel.Routine.Monitors
 /-!
 # routine: property theorems (C04, C05, C14)
@@ -16,101 +17,56 @@ open UtilModel
 
 /-! ## C04 — at most one instance executes -/
 
-/-- **C04, full statement**: in every reachable state at most one instance is between entry (`cbin`) and
-return (`cbout`) of the managed function. *False for the code as it is* (open finding D16), see
-`C04_full_false`. -/
+/-- **C04, first sentence** (`one_running`): in every reachable state at most one instance is between entry
+(`cbin`) and return (`cbout`) of the managed function — for every event list: any number of supersessions inside
+an exit latency, clearing and setting the routine again (the container keeps the cleared routine's exit channel,
+fix 3b21148), set/clear-context, restarts, retries, any number of callers, any interleaving. -/
+theorem one_running (es : List Ev) (s : St) (hr : model.run model.init es = some s)
+    (i j : Nat) (x y : Inst) (hx : s.insts[i]? = some x) (hy : s.insts[j]? = some y)
+    (rx : x.st = .running) (ry : y.st = .running) : i = j := by
+  have hg := good_run model.init s es good_init hr
+  exact Chain.one_running (proj s) hg.chain i j (pI x) (pI y) (proj_get s i x hx) (proj_get s j y hy)
+    (by simp [pI, pst, rx]) (by simp [pI, pst, ry])
+
+/-- the statement of the property as a closed proposition -/
 def C04_full : Prop :=
   ∀ (es : List Ev) (s : St), model.run model.init es = some s →
     ∀ (i j : Nat) (x y : Inst), s.insts[i]? = some x → s.insts[j]? = some y →
       x.st = .running → y.st = .running → i = j
 
-/-- D16 witness: `SetContext(1)`, `SetRoutine(f1)`, instance 0 enters, `SetRoutine(nil)`, `SetRoutine(f2)`:
-instance 1 enters beside instance 0. -/
-def d16Trace : List Ev :=
-  [.cfg {}, .inv 0 (.setContext 1 false), .cs 0, .ret 0 (.bool false),
-   .inv 1 (.setRoutine 1), .cs 1, .ret 1 (.setR false false), .cbin 0 0 1 0 1,
-   .inv 2 (.setRoutine 0), .cs 2, .ret 2 (.setR true true),
-   .inv 3 (.setRoutine 2), .cs 3, .cbin 1 1 2 0 1]
+theorem C04_full_holds : C04_full := fun es s hr i j x y hx hy rx ry => one_running es s hr i j x y hx hy rx ry
 
-theorem d16Trace_runs :
-    (model.run model.init d16Trace).map (fun s => s.insts.map (·.st)) = some [.running, .running] := by
-  decide
-
-/-- the model (like the code) violates the full statement -/
-theorem C04_full_false : ¬ C04_full := by
-  intro h
-  cases hr : model.run model.init d16Trace with
-  | none => have := d16Trace_runs; rw [hr] at this; cases this
-  | some s =>
-    have hm := d16Trace_runs
-    rw [hr] at hm
-    simp only [Option.map_some, Option.some.injEq] at hm
-    have h0 : ∃ x, s.insts[0]? = some x ∧ x.st = .running := by
-      have := congrArg (·[0]?) hm
-      simp only [List.getElem?_map] at this
-      cases hx : s.insts[0]? with
-      | none => simp [hx] at this
-      | some x => exact ⟨x, rfl, by simpa [hx] using this⟩
-    have h1 : ∃ y, s.insts[1]? = some y ∧ y.st = .running := by
-      have := congrArg (·[1]?) hm
-      simp only [List.getElem?_map] at this
-      cases hx : s.insts[1]? with
-      | none => simp [hx] at this
-      | some x => exact ⟨x, rfl, by simpa [hx] using this⟩
-    obtain ⟨x, hx, hxr⟩ := h0
-    obtain ⟨y, hy, hyr⟩ := h1
-    have := h d16Trace s hr 0 1 x y hx hy hxr hyr
-    cases this
-
-/-- **C04 outside D16** (`one_running_partial`): along every run that never clears the routine while the
-previous record still holds an exit channel (`SafeRun`, i.e. no `clearsLive` event), at most one instance is
-executing the managed function — for any number of supersessions inside an exit latency, set/clear-context,
-restarts, retries, any interleaving. Missing for the full statement: exactly the D16 pattern. -/
-theorem one_running_partial (es : List Ev) (s : St) (hr : model.run model.init es = some s)
-    (hsafe : SafeRun model.init es) (i j : Nat) (x y : Inst)
-    (hx : s.insts[i]? = some x) (hy : s.insts[j]? = some y)
-    (rx : x.st = .running) (ry : y.st = .running) : i = j := by
-  have hg := good_run model.init s es good_init hsafe hr
-  exact Chain.one_running (proj s) hg.chain i j (pI x) (pI y) (proj_get s i x hx) (proj_get s j y hy)
-    (by simp [pI, pst, rx]) (by simp [pI, pst, ry])
-
-/-- **C04, observable form of the first clause, outside D16** (`C04a_obs_partial`): the overlap monitor — "no
-entry of the managed function while another instance has entered and not returned" — accepts the observable
-trace of every run of the model that avoids the D16 critical section. The same monitor clause is part of `monC04`
-and `monC04x`, which the driver evaluates on histories recorded from the real code. -/
-theorem C04a_obs_partial (es : List Ev) (s : St) (hr : model.run model.init es = some s)
-    (hsafe : SafeRun model.init es) : monC04a.accepts (es.filterMap model.obs) = true := by
-  obtain ⟨ms, h, _⟩ := link_run model.init s {} es good_init linkA_init hsafe hr
+/-- **C04, observable form of the first clause** (`C04a_obs`): the overlap monitor — "no entry of the managed
+function while another instance has entered and not returned" — accepts the observable trace of every run of the
+model. The same clause is part of `monC04`, which the driver evaluates on histories recorded from the real code. -/
+theorem C04a_obs (es : List Ev) (s : St) (hr : model.run model.init es = some s) :
+    monC04a.accepts (es.filterMap model.obs) = true := by
+  obtain ⟨ms, h, _⟩ := link_run model.init s {} es good_init linkA_init hr
   have : monC04a.run monC04a.init (es.filterMap model.obs) = some ms := h
   simp [ObsMonitor.accepts, this]
 
-/-- the chain invariant itself (eight clauses of `Core/Chain`) holds in every state of a safe run -/
-theorem chain_inv_partial (es : List Ev) (s : St) (hr : model.run model.init es = some s)
-    (hsafe : SafeRun model.init es) : Chain.Inv (proj s) :=
-  (good_run model.init s es good_init hsafe hr).chain
+/-- the chain invariant itself (eight clauses of `Core/Chain`) holds in every reachable state -/
+theorem chain_inv (es : List Ev) (s : St) (hr : model.run model.init es = some s) : Chain.Inv (proj s) :=
+  (good_run model.init s es good_init hr).chain
 
 /-- the critical section of call `a`, run in state `s`, returns the exit channel of instance `p` as the
 `waitReturn` channel of SetRoutine / SetState / SetStateRoutine / SwapValue -/
 def csReturnsCh (s : St) (a p : Nat) : Prop :=
   ∃ cf c r, s.cfg = some cf ∧ s.calls[a]? = some c ∧ apiCS s cf c.op = some r ∧ r.2.2 = some p
 
-/-- **C04, second sentence** (`waitReturn_after_all`, outside D16): if the critical section of call `a` ran in
-state `s1` and handed out the exit channel of instance `p` as its wait channel, then in every later state in
-which that channel is closed, every instance that existed when the call was made has exited (is past
-`close(exitedCh)`, hence has returned). -/
+/-- **C04, second sentence** (`waitReturn_after_all`): if the critical section of call `a` ran in state `s1` and
+handed out the exit channel of instance `p` as its wait channel, then in every later state in which that channel
+is closed, every instance that existed when the call was made has exited (is past `close(exitedCh)`, hence has
+returned). -/
 theorem waitReturn_after_all (es1 es2 : List Ev) (a : Nat) (s1 s2 s3 : St) (p : Nat)
     (h1 : model.run model.init es1 = some s1) (h2 : model.step s1 (.cs a) = some s2)
     (h3 : model.run s2 es2 = some s3)
-    (hsafe : SafeRun model.init (es1 ++ ([.cs a] ++ es2)))
     (hwr : csReturnsCh s1 a p) (hcl : instClosed s3 p = true) :
     ∀ j, j < s1.insts.length → instClosed s3 j = true := by
-  obtain ⟨hsafe1, hsafe2⟩ := safeRun_append model.init s1 es1 _ hsafe h1
-  have hsafe2' : SafeRun s1 (Ev.cs a :: es2) := hsafe2
-  have g1 := good_run model.init s1 es1 good_init hsafe1 h1
+  have g1 := good_run model.init s1 es1 good_init h1
   have hk := step_ok s1 s2 (.cs a) g1.recs h2
-  have g2 : Good s2 := ⟨hk.1, (hk.2 hsafe2'.1).inv g1.chain⟩
-  have hsafe3 : SafeRun s2 es2 := hsafe2'.2 s2 h2
-  have g3 := good_run s2 s3 es2 g2 hsafe3 h3
+  have g2 : Good s2 := ⟨hk.1, hk.2.inv g1.chain⟩
+  have g3 := good_run s2 s3 es2 g2 h3
   obtain ⟨cf, c, r, _, _, hr, hp⟩ := hwr
   have hlast : lastOf s1 = some p := apiCS_wr s1 cf c.op r hr p hp
   intro j hj
@@ -119,22 +75,23 @@ theorem waitReturn_after_all (es1 es2 : List Ev) (a : Nat) (s1 s2 s3 : St) (p : 
     have : Chain.isClosed (proj s1) j = true :=
       g1.chain.topSome p (by simp [proj, hlast]) j hpj (by simpa [proj] using hj)
     rw [isClosed_proj] at this
-    have c2 := steps_closed_mono (hk.2 hsafe2'.1) j (by rw [isClosed_proj]; exact this)
+    have c2 := steps_closed_mono hk.2 j (by rw [isClosed_proj]; exact this)
     rw [isClosed_proj] at c2
-    exact closed_run s2 s3 es2 g2.recs hsafe3 h3 j c2
+    exact closed_run s2 s3 es2 g2.recs h3 j c2
   · rcases Nat.lt_or_ge j p with hlt | hge
     · have := g3.chain.down p (by rw [isClosed_proj]; exact hcl) j hlt
       rw [isClosed_proj] at this; exact this
     · have : j = p := by omega
       subst this; exact hcl
 
-/-- the hypothesis of the partial theorems is satisfiable by a non-trivial run: two restarts inside the exit
-latency of instance 0 (the D2 pattern), the instances hand over one after the other -/
-example : SafeRun model.init
-    [.cfg {}, .inv 0 (.setContext 1 false), .cs 0, .inv 1 (.setRoutine 1), .cs 1, .cbin 0 0 1 0 1,
-     .inv 2 .restart, .cs 2, .inv 3 .restart, .cs 3, .cbout 0 (some 0), .closeExit 0, .giveUp 1, .drained 1,
-     .closeExit 1, .cbin 1 2 1 0 1] :=
-  safeRun_of_bool _ _ (by decide)
+/-- a non-trivial run: the routine is cleared and set again inside the exit latency of instance 0 (the former D16
+pattern): instance 1 cannot enter before instance 0 has exited -/
+example :
+    (model.run model.init
+      [.cfg {}, .inv 0 (.setContext 1 false), .cs 0, .inv 1 (.setRoutine 1), .cs 1, .cbin 0 0 1 0 1,
+       .inv 2 (.setRoutine 0), .cs 2, .inv 3 (.setRoutine 2), .cs 3]).bind
+      (fun s => model.step s (.cbin 1 1 2 0 1)) = none := by
+  decide
 
 /-! ## C05 — superseded instances are cancelled; the survivor is current -/
 
@@ -148,11 +105,11 @@ theorem superseded_cancelled (es : List Ev) (s : St) (hr : model.run model.init 
   (cur_run model.init s es cur_init good_init.recs hr).1.sc n x hx hne
 
 /-- **C05, second sentence** (`quiescent_survivor`): in every reachable state (hence in every quiescent one) an
-instance with a live context is the current instance of the container's current record — so there is at most one
+instance that has not exited (waiting, or executing the function, or returning) with a live context is the current instance of the container's current record — so there is at most one
 (`survivor_unique`) — the container has a context, which is the one the instance derives from, and a routine, and
 the instance was started for that record. -/
 theorem quiescent_survivor (es : List Ev) (s : St) (hr : model.run model.init es = some s)
-    (n : Nat) (x : Inst) (hx : s.insts[n]? = some x) (hlive : s.isCancelled x = false) :
+    (n : Nat) (x : Inst) (hx : s.insts[n]? = some x) (hnc : x.st ≠ .closed) (hlive : s.isCancelled x = false) :
     curInst s = some n ∧ x.root = s.ctx ∧ s.ctx ≠ 0 ∧
     ∃ r y, s.routine = some r ∧ s.recs[r]? = some y ∧ y.rctx = some n ∧ x.rid = r := by
   have hc := cur_run model.init s es cur_init good_init.recs hr
@@ -164,7 +121,7 @@ theorem quiescent_survivor (es : List Ev) (s : St) (hr : model.run model.init es
       have : curInst s ≠ some n := by simpa using h
       have := hc.1.sc n x hx this
       rw [this] at hlive; cases hlive
-  have hk := hc.2 n x hcur hx hlive
+  have hk := hc.2 n x hcur hx hnc hlive
   refine ⟨hcur, hk.1, hk.2, ?_⟩
   cases hrt : s.routine with
   | none => simp [curInst, curRec, hrt] at hcur
@@ -180,8 +137,22 @@ theorem quiescent_survivor (es : List Ev) (s : St) (hr : model.run model.init es
 theorem survivor_unique (es : List Ev) (s : St) (hr : model.run model.init es = some s)
     (n m : Nat) (x y : Inst) (hx : s.insts[n]? = some x) (hy : s.insts[m]? = some y)
     (h1 : s.isCancelled x = false) (h2 : s.isCancelled y = false) : n = m := by
-  have a := (quiescent_survivor es s hr n x hx h1).1
-  have b := (quiescent_survivor es s hr m y hy h2).1
+  -- (every instance with a live context — exited or not — is the current one: `superseded_cancelled`)
+  have hc := cur_run model.init s es cur_init good_init.recs hr
+  have a : curInst s = some n := by
+    cases h : decide (curInst s = some n) with
+    | true => simpa using h
+    | false =>
+      have : curInst s ≠ some n := by simpa using h
+      have := hc.1.sc n x hx this
+      rw [this] at h1; cases h1
+  have b : curInst s = some m := by
+    cases h : decide (curInst s = some m) with
+    | true => simpa using h
+    | false =>
+      have : curInst s ≠ some m := by simpa using h
+      have := hc.1.sc m y hy this
+      rw [this] at h2; cases h2
   rw [a] at b; exact Option.some.inj b
 
 /-- **C05, state variant** (`survivor_state`): for a StateRoutineContainer, an instance with a live context was
@@ -189,10 +160,10 @@ built from the most recently stored state and state function (its record is the 
 non-empty. -/
 theorem survivor_state (es : List Ev) (s : St) (hr : model.run model.init es = some s)
     (cf : Cfg) (hcf : s.cfg = some cf) (hst : cf.state = true)
-    (n : Nat) (x : Inst) (hx : s.insts[n]? = some x) (hlive : s.isCancelled x = false) :
+    (n : Nat) (x : Inst) (hx : s.insts[n]? = some x) (hnc : x.st ≠ .closed) (hlive : s.isCancelled x = false) :
     ∃ y, s.recs[x.rid]? = some y ∧ s.routine = some x.rid ∧ y.arg = s.sval ∧ y.fn = s.sfn ∧
       s.sval ≠ 0 ∧ s.sfn ≠ 0 := by
-  obtain ⟨_, _, _, r, y, h1, h2, _, h4⟩ := quiescent_survivor es s hr n x hx hlive
+  obtain ⟨_, _, _, r, y, h1, h2, _, h4⟩ := quiescent_survivor es s hr n x hx hnc hlive
   have hk := (k4_run model.init s es k4_init hr).lnk cf hcf hst r y h1 h2
   subst h4
   exact ⟨y, h2, h1, hk.2.1, hk.1, hk.2.2.1, hk.2.2.2⟩
@@ -228,65 +199,63 @@ theorem error_rerun_only_by (s s' : St) (e : Ev) (r : Nat) (y : Rec)
       · subst h6; exact Or.inr ⟨ctx, h4⟩
       · exact absurd h6 herr
 
-/-- **C14 `success_not_rerun`, full statement**: a record whose last run returned nil gets a new instance only in
-the critical section of RestartRoutine. *False for the code as it is* (finding D17: a retry timer that fired
-before `stop()` still restarts the routine), see `success_not_rerun_full_false`. -/
-def success_not_rerun_full : Prop :=
-  ∀ (es : List Ev) (s s' : St) (e : Ev) (r : Nat) (y : Rec), model.run model.init es = some s →
-    model.step s e = some s' → s.routine = some r → s.recs[r]? = some y → y.success = true →
-    s.insts.length < s'.insts.length → s'.routine = some r →
-    ∃ a c, e = .cs a ∧ s.calls[a]? = some c ∧ c.op = .restart
+/-- a retry timer's critical section creates an instance only if it is still the record's pending retry timer
+(`r.deferRetry == retryTimer`, fix 6779104) -/
+theorem timer_needs_link (s s' : St) (t : Nat) (hs : model.step s (.timerCS t) = some s')
+    (hnew : s.insts.length < s'.insts.length) :
+    ∃ tm x, s.timers[t]? = some tm ∧ s.recs[tm.rid]? = some x ∧ x.retry = some t := by
+  simp only [model, step, stepI] at hs
+  split at hs
+  · rename_i tm htm
+    split at hs
+    · simp at hs; subst hs
+      simp only [timerBody, bcastNow_insts] at hnew
+      split at hnew
+      · rename_i x hx
+        split at hnew
+        · rename_i hc
+          simp only [Bool.and_eq_true] at hc
+          exact ⟨tm, x, htm, hx, by simpa using hc.1.1.1⟩
+        · simp at hnew
+      · simp at hnew
+    · cases hs
+  · cases hs
 
-/-- **`success_not_rerun_partial`**: … only in the critical section of RestartRoutine *or of a retry timer*
-(which, the record having succeeded, can only be a stale one: D17). SetContext — with or without restart —, the
-instance steps, exits and callbacks never re-run a successful routine. -/
-theorem success_not_rerun_partial (s s' : St) (e : Ev) (r : Nat) (y : Rec)
+/-- **C14 `success_not_rerun`**: a record whose last run returned nil gets a new instance only in the critical
+section of RestartRoutine — never by SetContext (with or without restart), never by a retry timer (a timer that
+fired before it was stopped finds it is no longer the pending one), never by instance steps, exits or callbacks.
+For every reachable state and every event. -/
+theorem success_not_rerun (es : List Ev) (s s' : St) (e : Ev) (r : Nat) (y : Rec)
+    (hrun : model.run model.init es = some s)
     (hs : model.step s e = some s') (hr : s.routine = some r) (hy : s.recs[r]? = some y)
     (hsucc : y.success = true)
     (hnew : s.insts.length < s'.insts.length) (hr' : s'.routine = some r) :
-    (∃ t, e = .timerCS t) ∨ (∃ a c, e = .cs a ∧ s.calls[a]? = some c ∧ c.op = .restart) := by
-  rcases rerun_cause s s' e r y hs hr hy hnew hr' with h | ⟨a, c, h1, h2, h3⟩
-  · exact Or.inl h
-  · right
-    refine ⟨a, c, h1, h2, ?_⟩
+    ∃ a c, e = .cs a ∧ s.calls[a]? = some c ∧ c.op = .restart := by
+  have hq := allQ_run model.init s es allQ_init hrun
+  rcases rerun_cause s s' e r y hs hr hy hnew hr' with ⟨t, ht⟩ | ⟨a, c, h1, h2, h3⟩
+  · subst ht
+    obtain ⟨tm, x, htm, hx, hlink⟩ := timer_needs_link s s' t hs hnew
+    -- the timer's record is the current one, which has succeeded: it holds no retry timer
+    have hrid : tm.rid = r := by
+      simp only [model, step, stepI, htm] at hs
+      split at hs
+      · simp at hs; subst hs
+        simp only [timerBody, bcastNow_insts, hx] at hnew
+        split at hnew
+        · rename_i hc
+          simp only [Bool.and_eq_true] at hc
+          have : s.routine = some tm.rid := by simpa using hc.1.2
+          rw [hr] at this; exact (Option.some.inj this).symm
+        · simp at hnew
+      · cases hs
+    subst hrid
+    rw [hy] at hx; cases hx
+    have := (hq tm.rid y hy).q1 hsucc
+    rw [this] at hlink; cases hlink
+  · refine ⟨a, c, h1, h2, ?_⟩
     rcases h3 with h3 | ⟨_, _, _, h5, _⟩
     · exact h3
     · rw [hsucc] at h5; cases h5
-
-/-- D17 witness: error, retry timer fires (callback waiting for the lock), RestartRoutine, the new instance
-succeeds and is recorded, then the stale callback runs -/
-def d17Prefix : List Ev :=
-  [.cfg { retry := true }, .inv 0 (.setContext 1 false), .cs 0, .inv 1 (.setRoutine 1), .cs 1,
-   .cbin 0 0 1 0 1, .cbout 0 (some 1), .closeExit 0, .record 0 true, .emit (.bo .dur), .fire 0,
-   .inv 2 .restart, .cs 2, .cbin 1 1 1 0 1, .cbout 1 none, .closeExit 1, .record 1 false, .emit (.bo .reset)]
-
-theorem d17_runs :
-    (model.run model.init d17Prefix).bind (fun s => (model.step s (.timerCS 0)).map fun s' =>
-      (s.routine, (s.recs[0]?).map (·.success), s.insts.length, s'.insts.length, s'.routine)) =
-    some (some 0, some true, 2, 3, some 0) := by
-  decide
-
-theorem success_not_rerun_full_false : ¬ success_not_rerun_full := by
-  intro h
-  have hw := d17_runs
-  cases hr : model.run model.init d17Prefix with
-  | none => rw [hr] at hw; cases hw
-  | some s =>
-    rw [hr] at hw
-    simp only [Option.bind_some] at hw
-    cases hst : model.step s (.timerCS 0) with
-    | none => rw [hst] at hw; cases hw
-    | some s' =>
-      rw [hst] at hw
-      simp only [Option.map_some, Option.some.injEq, Prod.mk.injEq] at hw
-      obtain ⟨w1, w2, w3, w4, w5⟩ := hw
-      cases hy : s.recs[0]? with
-      | none => rw [hy] at w2; cases w2
-      | some y =>
-        rw [hy] at w2
-        have hsucc : y.success = true := by simpa using w2
-        obtain ⟨a, c, he, _⟩ := h d17Prefix s s' (.timerCS 0) 0 y hr hst w1 hy hsucc (by omega) w5
-        cases he
 
 /-- **C14 `retry_armed` / backoff**: the final critical section of an instance that is current for its record
 and for the container, with a backoff configured: a success calls `Reset()`; an error calls `NextBackOff()`, and
@@ -329,49 +298,53 @@ def retryPending (s : St) (r : Nat) : Bool :=
                | none => false)
   | none => false
 
-/-- **C14 retry clause, full statement** (`retry_kept_full`): a pending retry of the current record survives a
-`SetContext(ctx, restart = false)` that leaves the container with a context ("run again automatically after each
-backoff interval when retry is configured"). *False for the code as it is* (finding D14: `stop()` cancels the
-timer and `start()` is skipped because `err != nil`), see `retry_kept_full_false`. What is proved instead:
-`retry_armed` (the retry is armed and linked when the failure is recorded) and `error_rerun_only_by`. -/
-def retry_kept_full : Prop :=
-  ∀ (es : List Ev) (s s' : St) (a : Nat) (c : Call) (ctx r : Nat), model.run model.init es = some s →
-    model.step s (.cs a) = some s' → s.calls[a]? = some c → c.op = .setContext ctx false → ctx ≠ 0 →
-    s.routine = some r → retryPending s r = true → retryPending s' r = true
-
-/-- D14 witness: error recorded, retry armed, `SetContext(2, false)` -/
-def d14Prefix : List Ev :=
-  [.cfg { retry := true }, .inv 0 (.setContext 1 false), .cs 0, .inv 1 (.setRoutine 1), .cs 1,
-   .cbin 0 0 1 0 1, .cbout 0 (some 1), .closeExit 0, .record 0 true, .emit (.bo .dur),
-   .inv 2 (.setContext 2 false)]
-
-theorem d14_runs :
-    (model.run model.init d14Prefix).bind (fun s => (model.step s (.cs 2)).map fun s' =>
-      (s.routine, (s.calls[2]?).map (fun c => decide (c.op = .setContext 2 false)), retryPending s 0, retryPending s' 0, s'.ctx)) =
-    some (some 0, some true, true, false, 2) := by
-  decide
-
-theorem retry_kept_full_false : ¬ retry_kept_full := by
-  intro h
-  have hw := d14_runs
-  cases hr : model.run model.init d14Prefix with
-  | none => rw [hr] at hw; cases hw
-  | some s =>
-    rw [hr] at hw
-    simp only [Option.bind_some] at hw
-    cases hst : model.step s (.cs 2) with
-    | none => rw [hst] at hw; cases hw
-    | some s' =>
-      rw [hst] at hw
-      simp only [Option.map_some, Option.some.injEq, Prod.mk.injEq] at hw
-      obtain ⟨w1, w2, w3, w4, _⟩ := hw
-      cases hc : s.calls[2]? with
-      | none => rw [hc] at w2; cases w2
-      | some c =>
-        rw [hc] at w2
-        have hop : c.op = .setContext 2 false := by simpa using w2
-        have := h d14Prefix s s' 2 c 2 0 hr hst hc hop (by decide) w1 w3
-        rw [w4] at this; cases this
+/-- **C14 retry clause** (`retry_kept`): a pending retry of the current record survives a
+`SetContext(ctx, restart = false)` that leaves the container with a context (fix e3f7210: the pending retry is
+kept and will run with the new context). For every reachable state. -/
+theorem retry_kept (es : List Ev) (s s' : St) (a : Nat) (c : Call) (ctx r : Nat)
+    (hrun : model.run model.init es = some s)
+    (hs : model.step s (.cs a) = some s') (hc : s.calls[a]? = some c) (hop : c.op = .setContext ctx false)
+    (hctx : ctx ≠ 0) (hr : s.routine = some r) (hp : retryPending s r = true) : retryPending s' r = true := by
+  have hq := allQ_run model.init s es allQ_init hrun
+  simp only [model, step, stepI, hc] at hs
+  split at hs
+  · rename_i cf c' hcf hcc
+    have hcc' : c' = c := by simpa using hcc.symm
+    subst hcc'
+    split at hs
+    · simp only [hop] at hs
+      split at hs
+      · cases hs
+      · simp only [apiCS, Option.some.injEq] at hs
+        subst hs
+        -- records and timers are untouched on every path that a pending retry can take
+        cases hy : s.recs[r]? with
+        | none => simp [retryPending, hy] at hp
+        | some y =>
+          have hret : y.retry ≠ none := by
+            intro e; simp [retryPending, hy, e] at hp
+          have herr : y.err ≠ none := (hq r y hy).q2 hret
+          have : (setContextCS s ctx false).1.recs = s.recs ∧ (setContextCS s ctx false).1.timers = s.timers := by
+            simp only [setContextCS, hr, hy]
+            split
+            · exact ⟨rfl, rfl⟩
+            · split
+              · exact ⟨rfl, rfl⟩
+              · split
+                · exact ⟨rfl, rfl⟩
+                · rename_i hno
+                  exfalso; apply hno
+                  have h1 : y.err.isSome = true := by cases h : y.err with
+                    | none => exact absurd h herr
+                    | some _ => rfl
+                  have h2 : y.retry.isSome = true := by cases h : y.retry with
+                    | none => exact absurd h hret
+                    | some _ => rfl
+                  simp [h1, h2, hctx]
+          simp only [retryPending, setCall, this.1, this.2] at hp ⊢
+          exact hp
+    · cases hs
+  · cases hs
 
 /-- **C14 `exit_cb_once`**: the final critical section of an instance that is current for its record reports the
 exit to every exit callback exactly once, in order, with the instance's result (after the backoff call, if any);
